@@ -190,3 +190,29 @@ package sizes
 //@ func (*table).formatRow
 //@   requires t.indent >= 0
 //@   pure
+
+// A row is written iff the item is shown (C11), and the footnote table stays
+// well-formed (C19).
+//@ func (*item).Emit
+//@   requires t.indent >= 0 && wfFootnotes(t.footnotes) && i.scale > 0.0 && finite(i.scale) && validHumaner(&i.humaner) && t.nameStyle >= 0 && t.nameStyle <= 2
+//@   modifies t.footnotes.footnotes, map(t.footnotes.indexes)
+//@   call 0 levelOfConcern as loc
+//@   call 0 formatRow as row
+//@   ensures row_reached == loc1
+//@   ensures wfFootnotes(t.footnotes)
+
+// JSON v2: value, referenceValue and levelOfConcern are the same terms the
+// table is computed from (C11); a saturated counter is emitted as its
+// capacity (C05: hval of a saturated Count32/Count64 is 2^32-1 / 2^64-1).
+//@ func (*item).MarshalJSON
+//@   requires i.scale > 0.0 && finite(i.scale)
+//@   pure
+//@   ensures stat.Value == hval(i.value) && stat.ReferenceValue == i.scale
+//@   ensures stat.LevelOfConcern == float64(hval(i.value)) / i.scale
+//@   ensures same(stat.Description, i.description) && same(stat.Unit, i.unit)
+
+//@ property C19: NewFootnotes (*Footnotes).CreateCitation (*item).Emit
+//@ property C11: (*item).levelOfConcern (*item).Emit (*item).MarshalJSON (*item).Footnote lemma/threshold_monotone lemma/verbose_shows_all
+//@ property C07: (*table).formatRow
+//@ property C05: (*item).levelOfConcern (*item).MarshalJSON
+//@ property C09: (*TreeSize).addDescendent (*TreeSize).addBlob (*TreeSize).addLink (*TreeSize).addSubmodule (*HistorySize).recordBlob (*HistorySize).recordTree (*HistorySize).recordCommit (*HistorySize).recordTag
